@@ -264,15 +264,15 @@ def _codec_cases(rng, tier):
                 if ch and back <= n:
                     s[n - back] = ch
                 yield {"k": "stanza", "items": [["t", "".join(s)]]}
-    for _ in range(150 if quick else 1500):
+    for _ in range(150 if quick else 700):
         items = []
         for _ in range(rng.randint(1, 3)):
             m = _message(rng)
             items.append([rng.choice(["message", "target_branch", "a", "x-y_z", "T9"]), m if m is not None else ""])
         yield {"k": "stanza", "items": items}
-    for _ in range(250 if quick else 3000):
+    for _ in range(250 if quick else 1500):
         yield _gen_dir(rng)
-    for _ in range(120 if quick else 1200):
+    for _ in range(120 if quick else 600):
         d = _gen_dir(rng)
         if d["patch"] is None and d["bundle"] is None:
             d["patch"] = DIFF
@@ -284,10 +284,10 @@ def _codec_cases(rng, tier):
     for s in [1, 59, 3600, 86399, 86400, 951782400, 951868799, 1700000000, 4107542399, 253402300799, 253402300800, 0]:
         for o in list(range(-50400, 50401, 1800 if quick else 900)) + [-86340, 86340, 86400, -86400, 30, -30]:
             yield {"k": "date", "s": s, "o": o}
-    for _ in range(100 if quick else 2000):
+    for _ in range(100 if quick else 800):
         yield {"k": "date", "s": _time(rng), "o": _tz(rng)}
     # _verify_patch
-    for _ in range(200 if quick else 2000):
+    for _ in range(200 if quick else 1000):
         p = _patch(rng) or DIFF
         q = bytearray(p)
         for _ in range(rng.choice([0, 1, 1, 2])):
@@ -319,7 +319,7 @@ def _codec_cases(rng, tier):
 def _hist_cases(rng, tier):
     from props import _c40_hist as H
     quick = tier == "quick"
-    nh = 7 if quick else 60
+    nh = 7 if quick else 36
     for hi in range(nh):
         fmt = rng.choice(["2a", "2a", "2a", "pack-0.92", "pack-0.92"] + ([] if quick else ["1.14-rich-root"]))
         n = rng.choice([5, 7, 9] if quick else [5, 8, 10, 13])      # > 10 revisions: RevisionInstaller's LRUCache(10)
